@@ -182,6 +182,15 @@ def gen_history(rng, method, nd, variant, via):
                 pt.append(gen_coord(rng, g, k))
         pts.append(pt)
     out = any(p[i] < g[0] or p[i] > g[-1] for p in pts for i, g in enumerate(grids))
+    if via == 'interp' and rng.random() < 0.45:
+        # mixed history: calls with several points (vectorised path of the fixed classes) followed by
+        # one-point calls on the same object
+        sizes, left = [], npts
+        while left > 0:
+            n = min(left, rng.choice([1, 1, 2, 3]) if sizes else rng.choice([2, 2, 3]))
+            sizes.append(n)
+            left -= n
+        c['calls'] = sizes
     c.update({'extrap': extrap, 'pts': [[pj(v) for v in p] for p in pts], 'history': True,
               'pkind': ('out' if out else 'in') + ('+poly' if c['poly'] else '+table')})
     return c
@@ -242,7 +251,7 @@ class C15(Spec):
             'five methods, general and fixed-dimension variants, InterpND and MetaModelStructuredComp, tables of random '
             'values and of tensor polynomials of the method degree, 1-4 query points per call drawn from nodes, '
             'boundary nodes, cell interiors and outside points, extrapolate on/off; histories: one interpolant object, '
-            '3-6 single-point calls mixing out-of-table (extrapolate=True) and in-bounds points; bracket search exhaustive over '
+            '3-6 single-point calls (or mixed multi-point / single-point calls) mixing out-of-table (extrapolate=True) and in-bounds points; bracket search exhaustive over '
             'cached index x node/midpoint/outside queries; every case is a distinct configuration')
 
     def gen(self, tier, rng):
@@ -276,6 +285,14 @@ class C15(Spec):
         if c['variant'] == 'fixed' and len(c['grids']) == 1 and c['method'] in ('slinear', 'lagrange2', 'lagrange3'):
             # the 1-D fixed classes have their own executable model (coefficient form + their cell search),
             # proved equal to the general method over Q (C15_fixed1_eq_general)
+            if c.get('calls'):
+                xs, k, groups = [p[0] for p in c['pts']], 0, []
+                for n in c['calls']:
+                    groups.append(qlist_term(xs[k:k + n]))
+                    k += n
+                return '(run_fixed1_calls %s %s %s %s [%s])' % (
+                    COQ_M[c['method']], qlist_term(c['grids'][0]), tensor_term(c['table']), boollit(c['extrap']),
+                    '; '.join(groups))
             return '(run_fixed1 %s %s %s %s %s %s)' % (
                 COQ_M[c['method']], qlist_term(c['grids'][0]), tensor_term(c['table']), boollit(c['extrap']),
                 boollit(bool(c.get('history'))), qlist_term([p[0] for p in c['pts']]))
@@ -285,6 +302,8 @@ class C15(Spec):
 
     def shrink(self, c):
         if c['kind'] != 'interp':
+            return
+        if c.get('calls'):
             return
         if len(c['pts']) > 1 and c.get('history'):
             for j in range(len(c['pts'])):
